@@ -158,6 +158,15 @@ func (c *Conn) Session() Session {
 	return c.session
 }
 
+// bdat returns the pipe feeding the chunked message transfer in progress,
+// or nil. Like the session it is shared with Close, which may run on another
+// goroutine (Server.Close), hence the lock.
+func (c *Conn) bdat() *io.PipeWriter {
+	c.locker.Lock()
+	defer c.locker.Unlock()
+	return c.bdatPipe
+}
+
 func (c *Conn) setSession(session Session) {
 	c.locker.Lock()
 	defer c.locker.Unlock()
@@ -231,7 +240,7 @@ func (c *Conn) handleGreet(enhanced bool, arg string) {
 	c.helo = domain
 
 	// RFC 5321: "An EHLO command MAY be issued by a client later in the session"
-	if c.session != nil {
+	if c.Session() != nil {
 		// RFC 5321: "... the SMTP server MUST clear all buffers
 		// and reset the state exactly as if a RSET command has been issued."
 		c.reset()
@@ -308,7 +317,7 @@ func (c *Conn) handleMail(arg string) {
 		c.writeResponse(502, EnhancedCode{5, 5, 1}, "Please introduce yourself first.")
 		return
 	}
-	if c.bdatPipe != nil {
+	if c.bdat() != nil {
 		c.writeResponse(502, EnhancedCode{5, 5, 1}, "MAIL not allowed during message transfer")
 		return
 	}
@@ -663,7 +672,7 @@ func (c *Conn) handleRcpt(arg string) {
 		c.writeResponse(502, EnhancedCode{5, 5, 1}, "Missing MAIL FROM command.")
 		return
 	}
-	if c.bdatPipe != nil {
+	if c.bdat() != nil {
 		c.writeResponse(502, EnhancedCode{5, 5, 1}, "RCPT not allowed during message transfer")
 		return
 	}
@@ -918,7 +927,7 @@ func (c *Conn) handleData(arg string) {
 		c.writeResponse(501, EnhancedCode{5, 5, 4}, "DATA command should not have any arguments")
 		return
 	}
-	if c.bdatPipe != nil {
+	if c.bdat() != nil {
 		c.writeResponse(502, EnhancedCode{5, 5, 1}, "DATA not allowed during message transfer")
 		return
 	}
@@ -1010,9 +1019,13 @@ func (c *Conn) handleBdat(arg string) {
 		c.bdatStatus = c.createStatusCollector()
 	}
 
-	if c.bdatPipe == nil {
+	bdatPipe := c.bdat()
+	if bdatPipe == nil {
 		var r *io.PipeReader
-		r, c.bdatPipe = io.Pipe()
+		r, bdatPipe = io.Pipe()
+		c.locker.Lock()
+		c.bdatPipe = bdatPipe
+		c.locker.Unlock()
 
 		c.dataResult = make(chan error, 1)
 
@@ -1056,7 +1069,7 @@ func (c *Conn) handleBdat(arg string) {
 	}
 
 	chunk := io.LimitReader(c.text.R, int64(size))
-	n, err := io.Copy(c.bdatPipe, chunk)
+	n, err := io.Copy(bdatPipe, chunk)
 	if err == nil && n < int64(size) {
 		// The connection was lost inside the chunk, so the message is
 		// incomplete: abort the transfer (the backend's reader fails with
@@ -1091,7 +1104,7 @@ func (c *Conn) handleBdat(arg string) {
 	c.bytesReceived += int64(size)
 
 	if last {
-		c.bdatPipe.Close()
+		bdatPipe.Close()
 
 		err := <-c.dataResult
 
